@@ -8,7 +8,8 @@ ASSUMPTIONS = [
     "__post_deserialize__ once per instance of the result in post-order, __pre_deserialize__ in pre-order",
     "format entry points (orjson, msgpack mixins) run with identity transports (the C libraries are outside, see C04)",
     "schemas enumerated (vf/checks/c19.py): nested, list, dict, Optional, every member position of unions, inherited hooks, "
-    "plain (non-mixin) dataclasses through codecs, ADD_SERIALIZATION_CONTEXT",
+    "plain (non-mixin) dataclasses through codecs, ADD_SERIALIZATION_CONTEXT; unions whose FIRST member is a class without hooks "
+    "and without the context option (OutV): the context must still reach the later, opted-in member",
     "dispatch through a Config field discriminator (Shape <- Circle, Sq with inherited / overridden hooks) entered through the "
     "root's from_dict, a List[root] field, a codec for the root and the variant itself: EXACT pre/post traces (no union "
     "speculation is involved)",
@@ -111,6 +112,16 @@ class OutU{b}:
     lu: List[Union[M2, M1]]
 {cfg}{hooks}
 @dataclass
+class NoCtx{b}:
+    # no hooks and NO code generation options of its own (in the context preludes the other classes opt in)
+    q: int
+
+@dataclass
+class OutV{b}:
+    v: Union[NoCtx, M1]
+    lv: List[Union[NoCtx, M2]]
+{cfg}{hooks}
+@dataclass
 class OutM{b}:
     d: Dict[str, M1]
     n: NoHook
@@ -156,7 +167,7 @@ def harnesses(tier, seed):
     combos = [("DataClassDictMixin", "mixin", False), ("object", "codec", False), ("DataClassDictMixin", "mixin", True),
               ("DataClassORJSONMixin", "orjson", False), ("DataClassMessagePackMixin", "msgpack", False),
               ("DataClassDictMixin", "codec", False)]
-    types = ["Out", "OutU", "OutM", "Chain", "Repl", "List[Repl]", "Union[Box[int], M2]", "List[Union[Box[int], M1]]", "Union[M1, M2]", "List[Union[M1, M2]]", "Optional[M2]", "Dict[str, Union[M2, M1]]",
+    types = ["Out", "OutU", "OutV", "OutM", "Chain", "Repl", "List[Repl]", "Union[Box[int], M2]", "List[Union[Box[int], M1]]", "Union[M1, M2]", "List[Union[M1, M2]]", "Optional[M2]", "Dict[str, Union[M2, M1]]",
              "Tuple[M1, ...]"]
     for base, variant, context in combos:
         for t in types:
